@@ -105,6 +105,8 @@ type Driver struct {
 	// came back with the connection in use still open: the stream position is
 	// unknown after such an error, the client has to leave the connection.
 	LeftOpen []string
+	// StopByDisconnect makes CloseAndWait end the client with Disconnect.
+	StopByDisconnect bool
 }
 
 // InstallHooks routes the library's verification points to w.
@@ -385,7 +387,12 @@ func (d *Driver) PubsSnapshot() []*Pub {
 func (d *Driver) CloseAndWait() bool {
 	done := make(chan struct{})
 	go func() {
-		d.C.Close()
+		if d.StopByDisconnect {
+			d.W.Log(Event{Kind: "api.disconnect"})
+			d.C.Disconnect(nil)
+		} else {
+			d.C.Close()
+		}
 		close(done)
 	}()
 	select {
